@@ -25,7 +25,7 @@ ASSUMPTIONS = [
     'named as a dependency depends on "everything", which the statement does not cover)',
     'invocation order between different methods is not asserted',
 ]
-REQUIRED = {'inherited_methods_decorated_again': 30, 'ops': 2500, 'invocations': 2000, 'overrides': 200, 'method_on_method': 200, 'function_form_ops': 280, 'methods_without_dependencies': 60, 'plain_mixin_first': 30, 'objects_mutations': 200}
+REQUIRED = {'unresolvable_on_subclass_cases': 10, 'inherited_methods_decorated_again': 30, 'ops': 2500, 'invocations': 2000, 'overrides': 200, 'method_on_method': 200, 'function_form_ops': 280, 'methods_without_dependencies': 60, 'plain_mixin_first': 30, 'objects_mutations': 200}
 
 _st = {}
 PNAMES = ['p0', 'p1', 'p2', 'p3']
@@ -49,9 +49,74 @@ def make_method(param, name, specs, watch, on_init, side_effect=None):
     return param.depends(*specs, watch=watch, on_init=on_init)(body)
 
 
+def unresolvable_on_subclass_case(idx, rng, P, rep):
+    """A class that merely inherits a watch method one of whose named dependencies does not resolve on it (a depended-on
+    method replaced by a property; an intermediate class below an abstract base whose concrete classes declare the
+    parameter): the class can be defined and the method still runs once per change of what it does depend on."""
+    param = _st['param']
+    variant = rng.choice(['method-replaced-by-property', 'intermediate-below-abstract-base'])
+    desc = dict(kind='unresolvable-on-subclass', variant=variant)
+    log = []
+    try:
+        if variant == 'method-replaced-by-property':
+            class Base(param.Parameterized):
+                y = param.Number(default=0.0)
+                z = param.Number(default=0.0)
+
+                @param.depends('z')
+                def scale(self):
+                    return self.z
+
+                @param.depends('scale', 'y', watch=True)
+                def m(self):
+                    log.append('m')
+
+            class Fixed(Base):
+                scale = property(lambda self: 1.0)
+            target, pname = Fixed(), 'y'
+        else:
+            class Family(param.Parameterized):
+                __abstract = True
+
+                @param.depends('value', watch=True)
+                def m(self):
+                    log.append('m')
+
+            class Numeric(Family):       # (not flagged abstract itself: a mixin adding helpers)
+                helper = param.Number(default=1.0)
+
+            class Concrete(Numeric):
+                value = param.Number(default=0.0)
+            target, pname = Concrete(), 'value'
+    except Exception as e:   # noqa: BLE001
+        rep.violation('C06/class-with-inherited-registration-cannot-be-defined', f'{variant}: {type(e).__name__}: {e}', case=desc)
+        rep.case(('unresolvable', variant), True)
+        return
+    rep.count('unresolvable_on_subclass_cases')
+    for how in rng.sample(['set', 'update', 'batch'], 3):
+        del log[:]
+        v = float(rng.randint(1, 10 ** 6))
+        if how == 'set':
+            setattr(target, pname, v)
+        elif how == 'update':
+            target.param.update(**{pname: v})
+        else:
+            with param.parameterized.batch_call_watchers(target):
+                setattr(target, pname, v)
+        rep.count('ops')
+        rep.count('invocations', len(log))
+        if log != ['m']:
+            rep.violation('C06/missing-call/inherited-registration' if not log else 'C06/extra-call/inherited-registration',
+                          f'{variant}: {how} of {pname} on an instance of the inheriting class ran m {len(log)}x, expected 1', case=desc)
+            break
+    rep.case(('unresolvable', variant), True)
+
+
 def run_case(idx, rng, P, rep):
     if rng.random() < 0.1:
         return function_form_case(idx, rng, P, rep)
+    if rng.random() < 0.04:
+        return unresolvable_on_subclass_case(idx, rng, P, rep)
     param = _st['param']
     batch = param.parameterized.batch_call_watchers
     # ---- class specs
